@@ -29,7 +29,8 @@ Inductive event :=
 | EvEmpty (name : bytes) (attrs : list attr)
 | EvEnd (name : bytes)
 | EvText (raw : bytes)      (* handed over raw: not unescaped, not trimmed *)
-| EvOther                   (* CData | Comment | PI | Decl | DocType *)
+| EvComment
+| EvOther                   (* CData | PI | Decl | DocType *)
 | EvEof
 | EvErr.                    (* Err(e): syntax / ill-formed document *)
 
@@ -166,8 +167,8 @@ Definition on_empty (name : bytes) (attrs : list attr) (st : rstate) : outcome r
   else if bytes_eqb name s_key then rd_key attrs st
   else Ok st.
 
-(* `<data>` start tag: does the loop look at the next event?  Ok true = the key
-   attribute names the edge weight *)
+(* `<data>` start tag: Ok true = the key attribute names the edge weight, the
+   element's text is then expected *)
 Definition data_wants_text (attrs : list attr) (st : rstate) : outcome bool :=
   do m <- get_attributes attrs;
   if contains_key bytes_eqb s_key m then
@@ -175,7 +176,7 @@ Definition data_wants_text (attrs : list attr) (st : rstate) : outcome bool :=
     Ok (bytes_eqb key (r_wkey st))
   else Ok false.
 
-(* the Text event after a weight `<data>`: edges.last_mut().unwrap(), then parse *)
+(* a Text event while the weight text is expected: edges.last_mut().unwrap(), then parse *)
 Definition set_weight (parse : bytes -> option weight) (raw : bytes) (st : rstate) : outcome rstate :=
   match r_last st with
   | LEdge =>
@@ -194,42 +195,37 @@ Definition set_weight (parse : bytes -> option weight) (raw : bytes) (st : rstat
 Section Reader.
   Variable parse : bytes -> option weight.   (* str::parse::<f64>: None = Err, Some None = NaN *)
 
-  (* the event loop.  Structural in the event list; [] and EvEof end it (the
-     real reader returns Eof forever once the input is exhausted).  A weight
-     `<data>` start consumes the next event whatever it is (the inner
-     read_event_into): a Text sets the weight, anything else — including an
-     error or Eof — is dropped. *)
-  Fixpoint rloop (evs : list event) (st : rstate) : outcome rstate :=
+  (* the event loop.  Structural in the event list, one event per step; [] and
+     EvEof end it (the real reader returns Eof forever once the input is
+     exhausted).  [exp] is `expect_weight_text`: set by the start tag of a weight
+     `<data>`, kept across comments, cleared by every other event; a Text event
+     that arrives while it is set is the weight of the last edge. *)
+  Fixpoint rloop (evs : list event) (st : rstate) (exp : bool) : outcome rstate :=
     match evs with
     | [] => Ok st
     | ev :: rest =>
       match ev with
       | EvEof => Ok st
       | EvErr => Err ReadError
-      | EvEmpty name attrs => do st' <- on_empty name attrs st; rloop rest st'
+      | EvComment => rloop rest st exp
+      | EvText raw =>
+        if exp then do st' <- set_weight parse raw st; rloop rest st' false
+        else rloop rest st false
+      | EvEmpty name attrs => do st' <- on_empty name attrs st; rloop rest st' false
       | EvStart name attrs =>
-        if bytes_eqb name s_graph then do st' <- rd_graph attrs st; rloop rest st'
-        else if bytes_eqb name s_node then do st' <- rd_add_node attrs (set_last LNode st); rloop rest st'
-        else if bytes_eqb name s_edge then do st' <- rd_add_edge attrs (set_last LEdge st); rloop rest st'
-        else if bytes_eqb name s_key then do st' <- rd_key attrs st; rloop rest st'
-        else if bytes_eqb name s_data then
-          do want <- data_wants_text attrs st;
-          if want then
-            match rest with
-            | [] => Ok st
-            | EvEof :: _ => Ok st
-            | EvText raw :: rest' => do st' <- set_weight parse raw st; rloop rest' st'
-            | _ :: rest' => rloop rest' st
-            end
-          else rloop rest st
-        else rloop rest st
-      | _ => rloop rest st
+        if bytes_eqb name s_graph then do st' <- rd_graph attrs st; rloop rest st' false
+        else if bytes_eqb name s_node then do st' <- rd_add_node attrs (set_last LNode st); rloop rest st' false
+        else if bytes_eqb name s_edge then do st' <- rd_add_edge attrs (set_last LEdge st); rloop rest st' false
+        else if bytes_eqb name s_key then do st' <- rd_key attrs st; rloop rest st' false
+        else if bytes_eqb name s_data then do want <- data_wants_text attrs st; rloop rest st want
+        else rloop rest st false
+      | _ => rloop rest st false
       end
     end.
 
   (* what the loop hands to Graph::new_from_nodes_and_edges *)
   Definition read_elements (evs : list event) : outcome (bool * list gnode * list gedge) :=
-    do st <- rloop evs r_init;
+    do st <- rloop evs r_init false;
     Ok (r_directed st, rev (r_nodes st), rev (r_edges st)).
 
   Definition with_directed (d : bool) (s : specs) : specs :=
